@@ -12,9 +12,21 @@ import Driver.HSet
 import Driver.HSetRules
 import Driver.HRefine
 import Driver.HGocty
+import Driver.HStd
+import Driver.HStdNum
+import Driver.HMarks
+import Driver.HMsgpack
+import Driver.HJsonVal
+import Driver.HStdlib
+import Driver.HWF
+import Driver.HHeap
+import Driver.HCovers
+import Driver.HC12
+import Driver.HConvert
+import Driver.HWalk
 open CtyModel
 
-def handlers : List Handler := [handleTy, handleVal, handleNum, handleOps, handleFunc, handleSet, handleSetRules, handleRefine, handleGocty]
+def handlers : List Handler := [handleTy, handleVal, handleNum, handleOps, handleFunc, handleSet, handleSetRules, handleRefine, handleGocty, handleStd, handleStdNum, handleMarks, handleMsgpack, handleJsonVal, handleStdlib, handleWF, handleHeap, handleCovers, handleC12, handleConvert, handleWalk]
 
 def handle (op : String) (args : List Sexp) : String :=
   match handlers.findSome? (fun h => h op args) with
